@@ -102,6 +102,9 @@ void PoseidonGoldilocks_hash_full_result_avx512(GElement *out, const GElement *i
 void hl_PoseidonGoldilocks_linear_hash_avx512(void)
 {
   uint64_t size; __CPROVER_assume(size <= MAXSIZE); uint64_t vf_insize = size; (void)vf_insize;
+#ifdef VF_PASSTHROUGH_ONLY
+  __CPROVER_assume(size <= CAPACITY);   /* quick-tier unit: the pass-through branch only (the all-lengths unit runs in the thorough tier) */
+#endif
   GElement *input = (GElement *)__CPROVER_allocate(0, 0); GElement output[2 * CAPACITY];
   g_input = input; g_size = size; g_rows = 2; g_calls = 0; g_bad = 0;
   PoseidonGoldilocks_linear_hash_avx512(output, input, size);
